@@ -29,7 +29,7 @@ for p in props:
         na.append({"property_id": pid, "reason": (pr or {}).get("na_reason", reg.get("default_na_reason", "not yet covered by a discharged contract"))})
 m = {
     "version": 1,
-    "setup_cmd": "cd /verif/tools/spans && CARGO_NET_OFFLINE=true cargo build --release --offline",
+    "setup_cmd": "cd /verif/tools/spans && CARGO_NET_OFFLINE=true cargo build --release --offline && /verif/tools/gen_ffi.sh",
     "hooks": {
         "guard": "none",
         "enable": "no hooks: both routes work on copies of /repo made at check time (Verus: extracted text; Kani: scratch copy with appended #[cfg(kani)] modules)",
